@@ -922,7 +922,7 @@ def fam_findings():
     add([('expr', ('bin', '%', N(5), ('num', '0.5', 1, 1)))])
     add([('var', 'va', N(7)), ('set', '%=', V('va'), ('num', '0.25', 1, 2)), ('expr', V('va'))])
     add([('expr', ('arr', [('bin', '%', N(5), ('num', '1.5', 3, 1)), ('bin', '%', ('num', '7.5', 15, 1), N(2)), ('bin', '%', ('neg', N(7)), N(3))]))])
-    # `using` of a null value: the next lookup that reaches the imports dereferences a null Object::Ptr (F-C15-f)
+    # `using` of a null value: the next lookup that reaches the imports is a script error (fix 9625736; before it a null Object::Ptr was dereferenced)
     add([('using', ('null',)), ('expr', V('foo'))])
     add([('var', 'va', ('null',)), ('using', V('va')), ('expr', C('len', S('abc')))])
     add([('var', 'va', ('dict', [])), ('using', ('dot', V('va'), 'nosuch')), ('try', [('set', '=', V('kz'), N(1))], [('var', 'vb', S('caught'))]), ('expr', N(1))])
@@ -1134,9 +1134,8 @@ def fam_sets(rnd, n):
             return A(*[rnd.choice(pools[k]) for _ in range(rnd.randint(0, 5))])
         f = rnd.choice(['union', 'intersection', 'intersection'])
         args = [arr() for _ in range(rnd.choice([1, 2, 2, 2, 3, 3, 4]))]
-        if f == 'intersection' and len(args) >= 3 and rnd.random() < 0.7:
-            # keep the later arrays no longer than the running result would allow: sort by decreasing size (the padded case is the recorded finding)
-            args.sort(key=lambda a: -len(a[1]) if a[0] == 'arr' else 0)
+        if f == 'intersection' and len(args) >= 3 and rnd.random() < 0.5:
+            args.sort(key=lambda a: -len(a[1]) if a[0] == 'arr' else 0)      # half of them with decreasing sizes, the rest in any order
         add([('var', 'va', C(f, *args)), ('expr', ('arr', [V('va'), C('len', V('va'))]))])
     return cs
 
@@ -1580,28 +1579,28 @@ def fam_hostile(rnd, n_mut, n_rand):
                       ('var v = 1\nvar p = &v\n*p = 2\nv\n', 'value'), ('var v = 1\nvar p = &v\n(*p)(1)\n', 'error'),
                       ('var d = { a = 1 }\nvar p = &d\n(*p).a = 2\n*p\n', 'value'), ('var v = 3\nvar p = &v\n*p += 4\nv\n', 'value')):
         add(src, 'deref:neighbour', want=want)
-    # `using null` + a lookup that reaches the imports: null Object::Ptr dereferenced in VMOps::FindVarImportRef (F-C15-f), on every stack
-    add('using null\nfoo\n', 'known:null-import', ('main', 'thread', 'coro'), True)
-    add('var d = {}\nusing d.x\nlen("a")\n', 'known:null-import', ('main',), True)
+    # `using null` + a lookup that reaches the imports: a script error since fix 9625736 (before: null Object::Ptr dereferenced), on every stack
+    add('using null\nfoo\n', 'fixed:null-import', ('main', 'thread', 'coro'), True, want='error')
+    add('var d = {}\nusing d.x\nlen("a")\n', 'fixed:null-import', ('main',), True, want='error')
+    add('using null\nkz = 1\n', 'fixed:null-import', ('main',), True, want='error')
     for src, want, show in (('using null\n1 + 2\n', 'value', '3'), ('var a = 4\nusing null\na\n', 'value', '4'), ('using 5\nfoo\n', 'error', None), ('using [ ]\nfoo\n', 'error', None),
                             ('var d = { foo = 7 }\nusing d\nusing null\nfoo\n', 'value', '7')):
         add(src, 'using:neighbour', ('main', 'coro'), want=want, show=show)
-    # Array#freeze / Dictionary#freeze with a null `this` (through Function#call / #callv): no REQUIRE_NOT_NULL (F-C15-h); Function#callv with a
-    # null argument array: ObjectLock on a null pointer (F-C15-i).  call/callv/freeze are not in the Gallina model: outcome classes only.
+    # Array#freeze / Dictionary#freeze with a null `this` (through Function#call / #callv) and Function#callv with a null argument array: script
+    # errors since fixes af1f2c3 / 79ebf08 (before: null pointers dereferenced).  call/callv/freeze are not in the Gallina model: outcome classes only.
     for src in ('[].freeze.call(null)\n', '{}.freeze.call(null)\n', '[].freeze.callv(null, [])\n'):
-        add(src, 'known:freeze-null-this', ('main',), True)
+        add(src, 'fixed:freeze-null-this', ('main', 'coro'), True, want='error')
     for src in ('len.callv(null, null)\n', '[].len.callv(1, null)\n'):
-        add(src, 'known:callv-null-args', ('main',), True)
+        add(src, 'fixed:callv-null-args', ('main', 'coro'), True, want='error')
     for src, want, show in (('[].freeze.call(5)\n', 'error', None), ('[].len.call(null)\n', 'error', None), ('[3, 1].sort.call(null)\n', 'error', None), ('{}.keys.call(null)\n', 'error', None),
                             ('var f = [].freeze\nf()\n', 'error', None), ('[].freeze.call()\n', 'error', None), ('len.callv(null, ["abc"])\n', 'value', '3'), ('len.call(null, "abc")\n', 'value', '3'),
                             ('len.callv(null, 5)\n', 'error', None), ('len.callv(null)\n', 'error', None), ('"a".len.call(null)\n', 'value', '0'), ('var a = [1]\na.freeze()\na.add(2)\n', 'error', None),
                             ('var a = [2, 1]\na.freeze()\na.sort()\n', 'value', '[1,2]'), ('var x = 1\n(&x).get.call(null)\n', 'error', None)):
         add(src, 'nullthis:neighbour', ('main', 'coro'), want=want, show=show)
-    # intersection() with three or more arguments: the running result doubles as input and is padded with nulls when a later
-    # array is longer (F-C15-g) - wrong values / a spurious error; the neighbours with shorter later arrays are right
-    for src, badline in (('intersection([-5], [-5], [-5, 0, 7])\n', 'hostile value [-5,null]'), ('intersection([1], [2], [0, 5])\n', 'hostile value [null]'),
-                         ('intersection(["a"], ["a"], ["a", "b"])\n', 'hostile error')):
-        add(src, 'known:isect-alias', ('main',), bad=badline)
+    # intersection() with three or more arguments where a later array is longer than the running result: right since fix b5e2da1 (before it the
+    # running result doubled as input and was padded with nulls: [-5,null], [null], a spurious script error)
+    for src, show in (('intersection([-5], [-5], [-5, 0, 7])\n', '[-5]'), ('intersection([1], [2], [0, 5])\n', '[]'), ('intersection(["a"], ["a"], ["a", "b"])\n', '["a"]')):
+        add(src, 'fixed:isect-alias', ('main',), want='value', show=show)
     for src, show in (('intersection([3], [3], [1, 2, 3])\n', '[3]'), ('intersection([1, 2, 3], [3, 2, 1], [2, 3])\n', '[2,3]'), ('intersection([5, 1], [1, 5], [5], [5])\n', '[5]'),
                       ('intersection([1, 2], [1, 2], null)\n', '[1,2]'), ('intersection([1, 2])\n', '[]'), ('union([2, 1], [3, 1], null)\n', '[1,2,3]')):
         add(src, 'isect:neighbour', ('main',), want='value', show=show)
@@ -1643,7 +1642,7 @@ def fam_hostile(rnd, n_mut, n_rand):
 
 
 # ----------------------------------------------------------------------------- screening with the extracted model
-DROP = ('abort:domain', 'abort:fuel', 'abort:isectalias')
+DROP = ('abort:domain', 'abort:fuel')
 
 
 def screen(cases):
@@ -1724,11 +1723,7 @@ def classify(case, detail, impl_lines):
     """known-finding keys are returned ONLY for a crash that the model (or the reproducer's tag) attributes to that class"""
     if 'crash' in detail:
         if 'model=abort:cycle' in detail: return 'cyclic-traversal'
-        if 'model=abort:nullimport' in detail: return 'using-null-import'
         if 'tag=known:cyclic-json' in detail: return 'cyclic-traversal'
-        if 'tag=known:null-import' in detail: return 'using-null-import'
-        if 'tag=known:freeze-null-this' in detail: return 'freeze-null-this'
-        if 'tag=known:callv-null-args' in detail: return 'callv-null-args'
         if 'hostile' in detail:
             m = re.search(r'tag=(\S+)', detail)
             tag = m.group(1) if m else 'hostile'
@@ -1738,7 +1733,6 @@ def classify(case, detail, impl_lines):
         return 'crash'
     if 'nondeterministic' in detail: return 'nondeterministic'
     if 'syntax-error-location' in detail: return 'syntax-location'
-    if 'known-wrong-value' in detail and 'tag=known:isect-alias' in detail: return 'intersection-alias'
     if 'hostile-outcome' in detail: return 'hostile-outcome'
     if 'value-mismatch' in detail: return 'value-mismatch'
     return 'other'
